@@ -63,6 +63,7 @@ var stageWorker = map[string]string{}
 
 type stage struct {
 	Name   string
+	Check  string // worker check of this stage (default: the property's)
 	Build  string // plain | instr | race
 	Params string
 	Shards int
@@ -93,6 +94,7 @@ func firstRaceReport(stderr string) string {
 }
 
 type runner struct {
+	check   string
 	env     []string
 	def     *propDef
 	tier    string
@@ -194,7 +196,7 @@ func (r *runner) superviseShard(i int) *shardResult {
 	const maxRestarts = 8
 	for attempt := 0; ; attempt++ {
 		os.Remove(stateFile)
-		args := []string{"-check", r.def.Check, "-tier", r.tier, "-shard", strconv.Itoa(i), "-n", strconv.Itoa(r.nshards),
+		args := []string{"-check", r.check, "-tier", r.tier, "-shard", strconv.Itoa(i), "-n", strconv.Itoa(r.nshards),
 			"-state", stateFile, "-skip-to", strconv.FormatUint(skip, 10), "-hang", strconv.Itoa(r.hang), "-props", r.props}
 		if r.params != "" {
 			args = append(args, "-params", r.params)
@@ -435,6 +437,10 @@ func cmdRun(prop, tier string) int {
 		if stg.Env != nil {
 			r.env = stg.Env
 		}
+		r.check = def.Check
+		if stg.Check != "" {
+			r.check = stg.Check
+		}
 		sres := make([]*shardResult, r.nshards)
 		var wg sync.WaitGroup
 		for i := 0; i < r.nshards; i++ {
@@ -540,7 +546,7 @@ func cmdRun(prop, tier string) int {
 			}
 			seen[key] = true
 			cands = append(cands, &violation{Prop: prop, Key: key, crash: true, shard: l.Shard, ordinal: l.Ordinal,
-				Case: map[string]interface{}{"check": def.Check, "crash_case": strings.Join(parts, " | "), "crash_parts": parts, "tier": tier},
+				Case: map[string]interface{}{"check": r.check, "crash_case": strings.Join(parts, " | "), "crash_parts": parts, "tier": tier},
 				Exp:  "terminates promptly with a documented outcome", Obs: l.Reason})
 		}
 	}
